@@ -108,12 +108,15 @@ def sdk_lib(flavour, extra=()):
             eo = os.path.join(odir, "vsched.o")
             _compile(os.path.join(ENGINE, "vsched.cc"), eo, BASE + ["-O1", "-g1"])
             objs.append(eo)
-        # stale objects of deleted sources must not linger in the archive
-        if os.path.exists(lib):
-            os.unlink(lib)
-        rc, out, err = run(["ar", "rcs", lib] + objs)
+        # a fresh archive every time (stale objects of deleted sources must not linger), installed
+        # atomically: another check may be linking against the library right now
+        tmp = lib + ".tmp%d" % os.getpid()
+        if os.path.exists(tmp):
+            os.unlink(tmp)
+        rc, out, err = run(["ar", "rcs", tmp] + objs)
         if rc != 0:
             raise Broken("ar failed: " + err)
+        os.replace(tmp, lib)
     return lib
 
 
